@@ -110,6 +110,12 @@ def run(tier, seed):
     run.sample({"leg": "pairs", "q": texts[0]})
     run.sample({"leg": "compound", "q": texts[-1]})
 
+    # names that are substances AND readable as (prefixed) units: the unit reading wins (the specification's lookup order);
+    # every substance name and symbol of the database is tried, the specification decides which of them are units too
+    shadow = [n for n in ([x["s"] for x in dump["substances"]] + ["".join(chr(c) for c in x["sym"]) for x in dump["symbols"]]) if n and lexable(n)]
+    shadow = sorted(set(shadow))
+    evalkit.decide(run, ["1 %s" % n for n in shadow] + ["%s -> kg" % n for n in shadow if len(n) <= 3], "shadowed-names", env=env, shards=2)
+
     # round trip: x t back to v's own unit, x taken from the observed reply and written as an exact fraction
     from engines.rt_util import limbs_to_int
     back = []
